@@ -861,6 +861,16 @@ func (c *Conn) ReadBatchWith(cfg ReadBatchConfig) *Batch {
 		err = checkTimeoutErr(adjustedDeadline)
 	}
 
+	var kafkaError Error
+	if errors.As(err, &kafkaError) {
+		// The connection stays usable after an error reported by the broker,
+		// so the rest of the response (message set size and payload) must be
+		// consumed, otherwise it is mistaken for the next response.
+		if _, derr := discardN(&c.rbuf, remain, remain); derr != nil {
+			err = derr
+		}
+	}
+
 	var msgs *messageSetReader
 	if err == nil {
 		if highWaterMark == offset {
